@@ -43,6 +43,7 @@ pub struct Inner {
     stdin_pos: usize,
     stdout: Vec<u8>,
     stdout_locked_by: Option<u32>,
+    stdout_lock_depth: u32,
     stderr_lines: Vec<String>,
     logs: Vec<(String, String)>,
     counters: HashMap<(String, OpKind), u32>,
@@ -201,6 +202,7 @@ impl SimWorld {
             stdin_pos: 0,
             stdout: vec![],
             stdout_locked_by: None,
+            stdout_lock_depth: 0,
             stderr_lines: vec![],
             logs: vec![],
             counters: HashMap::new(),
@@ -1294,10 +1296,12 @@ impl World for WorldRef {
                 match g.stdout_locked_by {
                     None => {
                         g.stdout_locked_by = Some(me());
+                        g.stdout_lock_depth = 1;
                         return;
                     }
                     Some(o) if o == me() => {
                         // std's stdout lock is re-entrant
+                        g.stdout_lock_depth += 1;
                         return;
                     }
                     Some(_) => {}
@@ -1311,7 +1315,10 @@ impl World for WorldRef {
     fn stdout_unlock(&self) {
         let mut g = self.0.lock();
         if g.stdout_locked_by == Some(me()) {
-            g.stdout_locked_by = None;
+            g.stdout_lock_depth = g.stdout_lock_depth.saturating_sub(1);
+            if g.stdout_lock_depth == 0 {
+                g.stdout_locked_by = None;
+            }
         }
     }
 
